@@ -70,10 +70,16 @@ def FS.run (fs : FS) (ops : List FsOp) : FS := ops.foldl FS.apply fs
 /-- The file system a process killed after `k` primitive operations of `ops` leaves behind. -/
 def FS.crashAt (fs : FS) (ops : List FsOp) (k : Nat) : FS := fs.run (ops.take k)
 
-/-- Primitive operations of the dump write, `serialize` lines 84-93: tmp is opened, written piecewise, closed,
-then renamed over the dump.  `fail = true`: an exception ends the writing (the `with` still closes), no rename. -/
-def serializeOps (pieces : List Bytes) (fail : Bool) : List FsOp :=
+/-- What the writer of a dump does (in fork mode: the child): tmp is opened, written piecewise, closed, then renamed
+over the dump.  `fail = true`: an exception ends the writing (the `with` still closes), no rename. -/
+def dumpWriteOps (pieces : List Bytes) (fail : Bool) : List FsOp :=
   [.openW .tmp] ++ pieces.map (.write .tmp) ++ [.close .tmp] ++ (if fail then [] else [.rename .tmp .dump])
+
+/-- Primitive operations of `serialize` in file mode (D84 repair): first a left-over `<dump>.tmp` is removed (by the
+calling process, before a fork), so that the new temporary file is a new inode that no orphaned writer of an earlier
+incarnation holds open; then the dump write. -/
+def serializeOps (pieces : List Bytes) (fail : Bool) : List FsOp :=
+  .remove .tmp :: dumpWriteOps pieces fail
 
 -- ------------------------------------------------------------------------------------------------
 -- the Serializer object
@@ -118,6 +124,11 @@ structure Ser where
   incOpen : Bool := false          -- `__incomingTransmissionFile is not None`
   incSnap : Bool := false          -- `__incomingSnapshot is not None` (a completely received, not yet installed snapshot)
   child   : Option Child := none
+  /-- remaining operations of a dump writer forked by an EARLIER incarnation of the node (D84): it survived the kill of
+  its parent; with the repair it never opens, removes or renames anything any more -/
+  orphan  : Option (List FsOp) := none
+  /-- the file the orphan holds open is still the one at `<dump>.tmp` (no later incarnation has started a dump yet) -/
+  orphLinked : Bool := false
   deriving DecidableEq, Repr
 
 def tlookup (n : Nat) : List (Nat × Trans) → Option Trans
@@ -141,12 +152,14 @@ def Ser.serialize (s : Ser) (id : Nat) (pieces : List Bytes) (fail : Bool) : Ser
     if fail then (s, true)
     else ({ s with fs := s.fs.set .dump (some pieces.flatten), pid := .doneOk }, false)
   | .file =>
-    let ops := serializeOps pieces fail
+    -- the left-over tmp file is removed by the caller; from here on an orphan's file is not the one at `<dump>.tmp`
+    let fs1 := s.fs.apply (.remove .tmp)
     if s.fork then
-      ({ s with pid := .child, child := some ⟨ops, !fail⟩ }, false)
+      ({ s with fs := fs1, orphLinked := false, pid := .child, child := some ⟨dumpWriteOps pieces fail, !fail⟩ }, false)
     else
       -- tmp was just created by `openW`, so the rename (when reached) cannot fail
-      ({ s with fs := s.fs.run ops, pid := if fail then .doneFail else .doneOk }, false)
+      ({ s with fs := fs1.run (dumpWriteOps pieces fail), orphLinked := false,
+                pid := if fail then .doneFail else .doneOk }, false)
 
 /-- one primitive operation of the fork child (it shares the file system, nothing else) -/
 def Ser.childStep (s : Ser) : Ser :=
@@ -254,10 +267,32 @@ def Ser.finishIncoming (s : Ser) (accept : Bool) : Ser × Bool :=
 /-- what `deserialize()` reads (`none` = no data / no file: the call raises) -/
 def Ser.stored (s : Ser) : Option Bytes := s.fs.dump
 
-/-- a process restart on the same files: only the files survive (memory mode: nothing) -/
+/-- a process restart on the same files: only the files survive (memory mode: nothing) — and, in file mode, a fork
+child that was writing a dump: it is not killed with its parent (D84).  With the repair the orphan exits at once when it
+has not opened its file yet (`__exitIfOrphan` at its start) and exits instead of renaming at the end; what is left of
+its operations are writes to / the close of the file it holds open. -/
 def Ser.restart (s : Ser) : Ser :=
   { mode := s.mode, fork := s.fork, batch := s.batch,
-    fs := match s.mode with | .memory => {} | .file => s.fs }
+    fs := match s.mode with | .memory => {} | .file => s.fs,
+    orphan := match s.mode, s.child with
+      | .file, some ⟨ops, _⟩ =>
+        if ops.any (fun o => o == .openW .tmp) then none
+        else some (ops.filter (fun o => match o with | .write .tmp _ => true | .close .tmp => true | _ => false))
+      | _, _ => s.orphan,
+    orphLinked := match s.mode, s.child with
+      | .file, some ⟨ops, _⟩ => !(ops.any (fun o => o == .openW .tmp))
+      | _, _ => s.orphLinked }
+
+/-- one primitive operation of the orphaned writer: it reaches the file system only while its file is still the one at
+`<dump>.tmp` -/
+def Ser.orphanStep (s : Ser) : Ser :=
+  match s.orphan with
+  | some (op :: rest) => { s with fs := if s.orphLinked then s.fs.apply op else s.fs, orphan := some rest }
+  | _ => s
+
+def Ser.orphanRun (s : Ser) : Nat → Ser
+  | 0 => s
+  | n + 1 => Ser.orphanRun s.orphanStep n
 
 -- ------------------------------------------------------------------------------------------------
 -- whole transfers
